@@ -70,6 +70,16 @@ fn archive_readers(ctx: &mut Ctx, bytes: &[u8], label: &str, rng: &mut Rng) {
     let mat = json!({"archive": label, "file_bytes": bytes.len()});
     let ids: Vec<u64> = R::walk(bytes, &R::WalkLimits::default(), false).map(|(_, w)| w.tiles.keys().copied().collect()).unwrap_or_default();
     let mut ranges: Vec<Option<(Bound<u64>, Bound<u64>)>> = vec![None];
+    if let Ok((_, w)) = R::walk(bytes, &R::WalkLimits::default(), false) {
+        // starts / ends steered onto leaf boundaries (first id of a leaf, last id of the previous one)
+        let last = ids.last().copied().unwrap_or(0);
+        for (_, p) in w.pointers.iter().skip(1).step_by((w.pointers.len() / 3).max(1)).take(3) {
+            let prev_last = ids.iter().rev().find(|i| **i < p.tile_id).copied().unwrap_or(0);
+            ranges.push(Some((Bound::Included(prev_last), Bound::Included(p.tile_id.saturating_add(6).min(last)))));
+            ranges.push(Some((Bound::Included(p.tile_id), Bound::Unbounded)));
+            ranges.push(Some((Bound::Unbounded, Bound::Excluded(p.tile_id))));
+        }
+    }
     if !ids.is_empty() {
         let a = *rng.pick(&ids);
         let b = *rng.pick(&ids);
@@ -359,8 +369,90 @@ fn headers(ctx: &mut Ctx, i: u64) {
     }
 }
 
+/// The same edit / lookup sequence applied to a sync-opened and an async-opened archive of the same bytes: every
+/// lookup, listing and count must agree after every step (state carried across async calls must not differ).
+fn lockstep(ctx: &mut Ctx, i: u64) {
+    use crate::checks::arch::Arch;
+    let l = logical_for(ctx, "c12.lock", i * 4 + 12); // small classes
+    let mut rng = ctx.rng("c12.lockr", i);
+    let Ok(bytes) = write_sync(l.build()) else { return };
+    let (Ok(mut s), Ok(mut a)) = (Arch::open_sync(bytes.clone()), Arch::open_async(bytes)) else {
+        ctx.violation("PMTiles::from_async_reader", "readers-differ", "one reader kind refuses what the other accepts", "lockstep open", l.describe());
+        return;
+    };
+    let ids: Vec<u64> = l.tiles.keys().copied().collect();
+    if ids.is_empty() {
+        return;
+    }
+    let mut log: Vec<String> = Vec::new();
+    let mut prev_id = ids[0];
+    for step in 0..rng.usize(10, 60) {
+        // often the id that was looked up or edited in the previous step
+        let id = if rng.chance(1, 2) {
+            prev_id
+        } else if rng.chance(4, 5) {
+            *rng.pick(&ids)
+        } else {
+            rng.below(1 << 20)
+        };
+        prev_id = id;
+        match rng.below(5) {
+            0 | 1 => {
+                log.push(format!("get({id})"));
+            }
+            2 => {
+                let c = rng.bytes(rng.clone().usize(1, 20));
+                log.push(format!("add({id},{}B)", c.len()));
+                let _ = s.add(id, c.clone());
+                let _ = a.add(id, c);
+            }
+            3 => {
+                log.push(format!("remove({id})"));
+                s.remove(id);
+                a.remove(id);
+            }
+            _ => {
+                // re-fetch the id that was fetched or edited last
+                log.push(format!("get({id}) again"));
+            }
+        }
+        let r = guard(|| (s.get(id).ok().flatten(), a.get(id).ok().flatten(), s.count(), a.count()));
+        match r {
+            Err(p) => {
+                ctx.panic("PMTiles::get_tile_by_id_async", &p, json!({"history": log}));
+                return;
+            }
+            Ok((gs, ga, cs, ca)) => {
+                if gs != ga || cs != ca {
+                    ctx.violation(
+                        "PMTiles::get_tile_by_id_async",
+                        "readers-differ",
+                        "async archive answers differently than the sync archive after the same edit history",
+                        &format!("step {step}: lookup of {id}: sync {:?} bytes, async {:?} bytes; counts {cs} / {ca}", gs.map(|g| g.len()), ga.map(|g| g.len())),
+                        json!({"archive": l.describe(), "history": log}),
+                    );
+                    return;
+                }
+            }
+        }
+        ctx.count("lockstep_steps_equal");
+    }
+    if s.ids() != a.ids() {
+        ctx.violation("PMTiles::tile_ids", "readers-differ", "listings differ after the same edit history", "tile_ids differ", json!({"history": log}));
+    }
+    ctx.case(l.fingerprint() ^ 0x10c, true);
+}
+
 pub fn run(ctx: &mut Ctx) {
     let mut case = 0u64;
+    for i in 0..ctx.n(150, 3000) {
+        if ctx.mine(case) {
+            ctx.begin(case);
+            lockstep(ctx, i);
+            ctx.end(case);
+        }
+        case += 1;
+    }
     for i in 0..ctx.n(400, 8000) {
         if ctx.mine(case) {
             ctx.begin(case);
